@@ -113,9 +113,18 @@ SHOW_CFG['names'].update({'_ZN9mpz_classC1Ei': 'show_mpz_from_int', '_ZN9mpz_cla
                           '_Zge9mpz_classS_': 'io_mpz_ge'})
 SHOW_CFG['extern'][r'operator>=\|bool \(mpz_class, mpz_class\)'] = 'io_mpz_ge'
 SHOW_CFG['bodies_prelude'] += '_Bool io_mpz_ge(mpz_class, mpz_class);\n'
+DWCST_CFG = {
+    'names': {'(anonymous namespace)::positive_int_from_mpz': 'positive_int_from_mpz', 'mpz_class::uval': 'dwcst_mpz_uval',
+              '_ZN9mpz_classC1Ei': 'dwcst_mpz_from_int', '_ZN9mpz_classC1Em10signedness': 'dwcst_mpz_mk'},
+    'extern': {r'operator%s\|bool \(mpz_class, mpz_class\)' % o: 'io_mpz_' + n
+               for o, n in (('<', 'lt'), ('>=', 'ge'), ('<=', 'le'), ('>', 'gt'), ('==', 'eq'), ('!=', 'ne'))},
+    'bodies_prelude': ''.join('_Bool io_mpz_%s(mpz_class, mpz_class); ' % n for n in ('lt', 'ge', 'le', 'gt', 'eq', 'ne')) + '\n',
+}
+DWCST_ROOTS = ['(anonymous namespace)::positive_int_from_mpz']
 SHOW_ROOTS = [show_root('hex'), show_root('oct'), show_root('bin'), 'numeric_constant_dom_t::show']
-INTIO_CFG['names'].update({'_Zeq9mpz_classS_': 'io_mpz_eq', '_Zge9mpz_classS_': 'io_mpz_ge'})
-INTIO_ROOTS = ['_ZlsRSo9mpz_class', '_Zeq9mpz_classS_', '_Zge9mpz_classS_']
+INTIO_CFG['names'].update({'_Zeq9mpz_classS_': 'io_mpz_eq', '_Zge9mpz_classS_': 'io_mpz_ge', '_Zle9mpz_classS_': 'io_mpz_le',
+                           '_Zgt9mpz_classS_': 'io_mpz_gt', '_Zne9mpz_classS_': 'io_mpz_ne'})
+INTIO_ROOTS = ['_ZlsRSo9mpz_class', '_Zeq9mpz_classS_', '_Zge9mpz_classS_', '_Zle9mpz_classS_', '_Zgt9mpz_classS_', '_Zne9mpz_classS_']
 INPUTS = ['len', 'in[*']
 FLAGS = ['-I%s' % vlib.REPO]
 
@@ -143,6 +152,9 @@ def jobs(tier):
                      kind='bounded' if radix == 'dec' else 'proof', unwind=70 if radix == 'bin' else 28, timeout=1500,
                      note='render by <domain>::show, read back by parse_int; %s; loops bounded by the number of digits of a '
                           '64-bit value (full unwinding)' % note))
+    J.append(Job('named_constant_code', [os.path.join(HERE, 'dwcst_harness.c'), os.path.join(OUT, 'dwcst_bodies.c'),
+                                         os.path.join(OUT, 'intio_bodies.c')], 'h_code', includes=inc, kind='proof', timeout=300,
+                 inputs=['v.*'], note='positive_int_from_mpz (dwcst.cc): the code under which a named constant is looked up for rendering'))
     if kf:
         J.append(Job('known_zero_domain', rsrc, 'hb_known_zero_domain', includes=inc + [os.path.join(HERE, '..', 'c08')],
                      defines=['OS_CAP=32', 'PARSE_MAXLEN=30'], kind='proof', unwind=28, timeout=600,
@@ -173,6 +185,8 @@ def prepare(tier):
     lw = vlib.extract('dump', 'dwgrep/dwgrep.cc', CFG, ROOTS, OUT, extra_flags=FLAGS)
     io = vlib.extract('intio', 'libzwerg/int.cc', INTIO_CFG, INTIO_ROOTS, OUT)
     sh = vlib.extract('show', 'libzwerg/constant.cc', SHOW_CFG, SHOW_ROOTS, OUT)
+    dc = vlib.extract('dwcst', 'libzwerg/dwcst.cc', DWCST_CFG, DWCST_ROOTS, OUT)
+    lw.report['functions'] += dc.report['functions']
     gen = vlib.gen_frontend(os.path.join(OUT, 'gen'))
     pw = vlib.extract('parse', os.path.join(gen, 'parser.cc'), PARSE_CFG, PARSE_ROOTS, OUT, extra_flags=['-I' + gen])
     for u in (io, sh, pw):
@@ -284,7 +298,17 @@ def replay_radix(r):
             'reads_back_equal': same_value, 'raw': [x[1] for x in res2]}
 
 
+def replay_named():
+    names = ['DW_ATE_void', 'DW_INL_not_inlined', 'DW_ORD_row_major', 'DW_VIRTUALITY_none', 'DW_TAG_array_type', 'DW_AT_sibling',
+             'DW_FORM_addr', 'DW_LANG_C89']
+    res = vlib.zw_queries(names, OUT, dw=True)
+    bad = ['`%s` renders as %s' % (n, t.strip()) for n, (c, t) in zip(names, res) if c != 1 or t.strip().strip('<>') != n]
+    return {'reproduced': bool(bad), 'violations_on_real_library': bad, 'words': len(names)}
+
+
 def replay(r):
+    if r.job.name == 'named_constant_code':
+        return replay_named()
     if r.job.name.startswith('radix_roundtrip_'):
         return replay_radix(r)
     if not r.cex or 'len' not in r.cex:
